@@ -208,6 +208,8 @@ def main(argv=None):
                         }
                     )
                 log("correspond: %d/%d cases DISAGREE" % (len(mism), n_eval))
+            elif errs:
+                log("correspond: model could not be evaluated (%d errors)" % len(errs))
             else:
                 log("correspond: %d cases agree" % n_eval)
         # direct property oracle on every case
